@@ -30,6 +30,7 @@ CANARIES = {
         ("range-guard-inclusive", "stix2/properties.py", "flip-compare", ["IntegerProperty.clean", "Gt -> GtE"], "C02.clean-contract"),
         ("uuid-cut-from-the-right", "stix2/properties.py", "text", ['id_.index("--")', 'id_.rindex("--")'], "C02.id-rule"),
         ("tlp-colour-normalised", "stix2/markings/utils.py", "text", ['color = marking_obj["definition"]["tlp"]', 'color = marking_obj["definition"]["tlp"].strip()'], "C02.tlp"),
+        ("boolean-socket-option", "stix2/v21/observables.py", "text", ["if isinstance(val, bool) or not isinstance(val, int):", "if not isinstance(val, int):"], "C02.constraints"),
     ],
     "C03": [
         ("extra-required", "stix2/v21/sdo.py", "bool-flip", ["Indicator", "True -> False", "default=lambda: False"], "C03.table"),
